@@ -63,6 +63,16 @@ Theorem registry_never_loses_a_file : forall disk0 th0 log s,
 Proof. exact registry_lemma. Qed.
 Print Assumptions registry_never_loses_a_file.
 
+(* copy-on-write tool configuration: once an update (SetTools, SetFastSymbolization) has run, the
+   representation satisfies what that update establishes -- no interleaving with first uses (the lazy
+   initialisation in get) can overwrite it with the defaults *)
+Theorem tool_setting_survives_first_use :
+  forall (Rep : Type) (dflt : Rep) (g : Rep -> Rep) (P : Rep -> Prop), (forall b, P (g b)) ->
+  forall th0 log s, cow_init Rep dflt g th0 -> aexec (ainit (None, O) th0) log s -> a_hold s = None ->
+  snd (a_sh s) = O \/ exists b, fst (a_sh s) = Some b /\ P b.
+Proof. exact cow_lemma. Qed.
+Print Assumptions tool_setting_survives_first_use.
+
 (* sync.Once around computeBase: the body runs exactly once and every caller that has returned
    reads the value computed by that one run *)
 Theorem once_computes_once : forall (A V : Type) (f : A -> V) (addr : nat -> A) th0 log s,
